@@ -129,6 +129,15 @@ fn smart_case_insensitive(pat: &str) -> bool {
             i += 1;
             continue;
         }
+        if c == '[' && i + 1 < cs.len() && cs[i + 1] == ':' {
+            // `[:upper:]` inside a bracketed class: a class name, not literals
+            i += 2;
+            while i + 1 < cs.len() && !(cs[i] == ':' && cs[i + 1] == ']') {
+                i += 1;
+            }
+            i += 2;
+            continue;
+        }
         if c == '{' {
             while i < cs.len() && cs[i] != '}' {
                 i += 1;
@@ -213,7 +222,8 @@ fn gen_pattern(rng: &mut Rng, depth: usize, lt: Lt) -> String {
     if depth == 0 {
         return gen_atom(rng, lt);
     }
-    match rng.below(9) {
+    match rng.below(10) {
+        9 => format!("({})", gen_pattern(rng, depth - 1, lt)),
         0 | 1 => gen_atom(rng, lt),
         2 | 3 | 4 => format!("{}{}", gen_pattern(rng, depth - 1, lt), gen_pattern(rng, depth - 1, lt)),
         5 => format!("(?:{}|{})", gen_pattern(rng, depth - 1, lt), gen_pattern(rng, depth - 1, lt)),
@@ -329,6 +339,194 @@ fn gen_smart_case(rng: &mut Rng) -> C1 {
     C1 { cfg, ci: false, fixed: false, word: rng.chance(1, 6), smart: true, pats: vec![pat], input }
 }
 
+
+/// Counted repetitions, classes, long literals and alternations around and above every limit of ripgrep's own
+/// inner-literal extractor (`Extractor { limit_class: 10, limit_repeat: 10, limit_literal_len: 100, limit_total: 64 }`,
+/// anchored in checks/C11.json), in the three shapes that keep regex-automata from accelerating by itself so that
+/// ripgrep's extractor runs (`-w`, a leading `\b`, an alternation with a class-prefixed branch); every pattern comes
+/// with lines that match and near-miss lines (one repetition fewer / more, a non-member of the class).
+fn gen_limit_case(rng: &mut Rng) -> C1 {
+    let lits = ["c", "foo", "ab", "qu"];
+    let l1 = *rng.pick(&lits);
+    let l2 = *rng.pick(&["y", "bar", "z", "ox"]);
+    // (pattern body, lines that are instances or near misses)
+    let (body, mut cands): (String, Vec<String>) = match rng.below(8) {
+        0 | 1 => {
+            // exact count of one letter or of a two-letter group
+            let n = *rng.pick(&[2usize, 9, 10, 11, 12, 13, 20, 21]);
+            if rng.chance(2, 3) {
+                let x = *rng.pick(&["Z", "Q", "7"]);
+                let inst = |k: usize| format!("{}{}{}", l1, x.repeat(k), l2);
+                (format!("{}{}{{{}}}{}", l1, x, n, l2), vec![inst(n - 1), inst(n), inst(n + 1), inst(10), inst(11)])
+            } else {
+                let inst = |k: usize| format!("{}{}{}", l1, "ZQ".repeat(k), l2);
+                (format!("{}(?:ZQ){{{}}}{}", l1, n, l2), vec![inst(n - 1), inst(n), inst(n + 1), inst(10)])
+            }
+        }
+        2 => {
+            // bounded / open ranges around the limit
+            let n = *rng.pick(&[1usize, 9, 10, 11, 12]);
+            let m = n + rng.range(0, 3);
+            let x = *rng.pick(&["Z", "Q"]);
+            let inst = |k: usize| format!("{}{}{}", l1, x.repeat(k), l2);
+            let rep = if rng.chance(1, 3) { format!("{{{},}}", n) } else { format!("{{{},{}}}", n, m) };
+            (format!("{}{}{}{}", l1, x, rep, l2), vec![inst(n.saturating_sub(1)), inst(n), inst(m), inst(m + 1), inst(10), inst(11)])
+        }
+        3 => {
+            // classes of 9..12 members between literals (limit_class = 10)
+            let k = *rng.pick(&[2usize, 9, 10, 11, 12]);
+            let hi = (b'a' + (k as u8) - 1) as char;
+            let member = (b'a' + rng.below(k) as u8) as char;
+            let non = (b'a' + k as u8) as char;
+            (
+                format!("{}[a-{}]{}", l1.to_uppercase(), hi, l2.to_uppercase()),
+                vec![
+                    format!("{}{}{}", l1.to_uppercase(), member, l2.to_uppercase()),
+                    format!("{}{}{}", l1.to_uppercase(), hi, l2.to_uppercase()),
+                    format!("{}{}{}", l1.to_uppercase(), non, l2.to_uppercase()),
+                    format!("{}{}", l1.to_uppercase(), l2.to_uppercase()),
+                ],
+            )
+        }
+        4 => {
+            // cross products around limit_total = 64: [ab]{5} = 32, [ab]{6} = 64, [ab]{7} = 128, [abc]{4} = 81
+            let (cls, alpha, n): (&str, &[u8], usize) = *rng.pick(&[
+                ("[ab]", &b"ab"[..], 5usize),
+                ("[ab]", &b"ab"[..], 6),
+                ("[ab]", &b"ab"[..], 7),
+                ("[abc]", &b"abc"[..], 4),
+                ("[abcd]", &b"abcd"[..], 3),
+            ]);
+            let word = |rng: &mut Rng, k: usize| -> String { (0..k).map(|_| *rng.pick(alpha) as char).collect() };
+            let (w0, w1, w2) = (word(rng, n), word(rng, n - 1), word(rng, n + 1));
+            (
+                format!("X{}{{{}}}Y", cls, n),
+                vec![format!("X{}Y", w0), format!("X{}Y", w1), format!("X{}Y", w2), format!("X{}dY", &w0[1..])],
+            )
+        }
+        5 => {
+            // literals of 98..102 bytes (limit_literal_len = 100) before and after a class
+            let k = *rng.pick(&[98usize, 99, 100, 101, 102]);
+            let long = "q".repeat(k);
+            let tail = *rng.pick(&["", "k", "kk"]);
+            (
+                format!("{}[0-9]{}{}", long, l2, tail),
+                vec![
+                    format!("{}7{}{}", long, l2, tail),
+                    format!("{}7{}{}", "q".repeat(k - 1), l2, tail),
+                    format!("{}7{}{}", "q".repeat(k + 1), l2, tail),
+                    format!("{}x{}{}", long, l2, tail),
+                ],
+            )
+        }
+        6 => {
+            // alternations of 63..66 literals
+            let k = *rng.pick(&[63usize, 64, 65, 66]);
+            let alts: Vec<String> = (0..k).map(|i| format!("w{}{}", (b'a' + (i % 26) as u8) as char, (b'A' + (i / 26) as u8) as char)).collect();
+            let pick = alts[rng.below(k)].clone();
+            let last = alts[k - 1].clone();
+            (format!("(?:{})[0-9]{}", alts.join("|"), l2), vec![format!("{}7{}", pick, l2), format!("{}7{}", last, l2), format!("wzZ7{}", l2), format!("{}{}", pick, l2)])
+        }
+        _ => {
+            // nested: a repetition of a literal-bearing group above the limit, with a literal-free tail
+            let n = *rng.pick(&[10usize, 11, 12]);
+            let inst = |k: usize| format!("{}{}9{}", l1, "Zk".repeat(k), l2);
+            (format!("{}(?:Zk){{{}}}[0-9]{}", l1, n, l2), vec![inst(n - 1), inst(n), inst(n + 1)])
+        }
+    };
+    let shape = rng.below(4);
+    let pat = match shape {
+        0 | 1 => body.clone(),                                             // with -w
+        2 => format!("\\b{}", body),                                       // leading \b
+        _ => format!("\\w+\\s+(?:{}|[A-Z]atso[a-z])", body),               // alternation with a class-prefixed branch
+    };
+    let word = shape <= 1;
+    if shape == 3 {
+        cands.push("Catsop".to_string());
+    }
+    let lt = *rng.pick(&[Lt::Lf, Lt::Lf, Lt::Crlf]);
+    let cfg = Cfg { lt, inv: rng.chance(1, 4), a: 0, b: 0, pt: rng.chance(1, 8), ln: true, son: false, ml: false, bin: Bin::None };
+    let mut input = vec![];
+    let n = rng.range(2, 6);
+    for i in 0..n {
+        let w = rng.pick(&cands).clone();
+        let line = match rng.below(4) {
+            0 => w,
+            1 => format!("ab {} q", w),
+            2 => format!("ab {}", w),
+            _ => format!("v{}v", w),
+        };
+        input.extend_from_slice(line.as_bytes());
+        if i + 1 < n || rng.chance(3, 4) {
+            input.extend_from_slice(lt.bytes());
+        }
+    }
+    C1 { cfg, ci: false, fixed: false, word, smart: false, pats: vec![pat], input }
+}
+
+/// `-S` with patterns that contain NO literal at all (only classes, escapes, Unicode properties, anchors): smart
+/// case must leave them case-sensitive. The classes are not closed under case folding.
+fn gen_smart_nolit_case(rng: &mut Rng) -> C1 {
+    let atoms = [
+        "\\p{Lu}", "\\p{Ll}", "[[:upper:]]", "[[:lower:]]", "\\p{Lu}+", "\\p{Ll}+", "\\pL", "\\W", "\\s", "\\d", ".", "^", "$", "\\b",
+        "(?:\\p{Lu}|\\d)", "[[:upper:]]{2}", "\\P{Ll}", "[^[:lower:]]", "(\\p{Lu})", "[[:upper:][:digit:]]",
+    ];
+    let n = rng.range(1, 3);
+    let pat: String = (0..n).map(|_| *rng.pick(&atoms)).collect();
+    let lt = *rng.pick(&[Lt::Lf, Lt::Lf, Lt::Crlf]);
+    let cfg = Cfg { lt, inv: rng.chance(1, 4), a: 0, b: 0, pt: rng.chance(1, 6), ln: true, son: false, ml: false, bin: Bin::None };
+    let words = ["abc", "ABC", "Abc", "a b", "A B", "\u{e9}", "\u{c9}", "1", "a1", "A1", "x", "X", "", "ab", "AB", "aB"];
+    let mut input = vec![];
+    let nl = rng.range(1, 6);
+    for i in 0..nl {
+        input.extend_from_slice(rng.pick(&words).as_bytes());
+        if i + 1 < nl || rng.chance(3, 4) {
+            input.extend_from_slice(lt.bytes());
+        }
+    }
+    C1 { cfg, ci: false, fixed: false, word: false, smart: true, pats: vec![pat], input }
+}
+
+/// Classes that could match the line terminator (`\s`, `\W`, `\D`, negated classes) and literal terminators INSIDE
+/// capturing groups (plain, named, nested, under alternation / repetition), next to a line end; the two halves of
+/// a would-be match sit on consecutive lines, so a matcher that keeps the terminator in such a class matches
+/// across the line break.
+fn gen_capture_case(rng: &mut Rng) -> C1 {
+    let lt = *rng.pick(&[Lt::Lf, Lt::Lf, Lt::Crlf, Lt::Nul]);
+    let cls = *rng.pick(&["\\s", "\\W", "\\D", "[^a-z]", "[^a]", "\\s+", "\\W*", "[\\s\\d]", "\\P{L}"]);
+    let tlit = match lt {
+        Lt::Nul => "\\x00",
+        _ => "\\n",
+    };
+    let (a, b) = (*rng.pick(&["foo", "a", "ab"]), *rng.pick(&["bar", "b", "a"]));
+    let pat = match rng.below(12) {
+        0 => format!("{}({}){}", a, cls, b),
+        1 => format!("({}){}", cls, b),
+        2 => format!("{}({})", a, cls),
+        3 => format!("(?P<ws>{}){}", cls, b),
+        4 => format!("{}(({})){}", a, cls, b),
+        5 => format!("({}|{}){}", a, cls, b),
+        6 => format!("{}({}|x)+{}", a, cls, b),
+        7 => format!("(?:({})){}", cls, b),
+        8 => format!("{}(?:x|({})){}", a, cls, b),
+        9 => format!("({}{}{})", a, tlit, b), // must be rejected
+        10 => format!("{}({}){}", a, tlit, b), // must be rejected
+        _ => format!("({}({})?)+{}", a, cls, b),
+    };
+    let cfg = Cfg { lt, inv: rng.chance(1, 4), a: 0, b: 0, pt: rng.chance(1, 8), ln: true, son: false, ml: false, bin: Bin::None };
+    let pieces = [a.to_string(), b.to_string(), format!("{} {}", a, b), format!("{}1{}", a, b), format!("x{}", b), format!("{} ", a), String::new(), format!(" {}", b), format!("{}{}", a, b)];
+    let mut input = vec![];
+    let nl = rng.range(2, 6);
+    for i in 0..nl {
+        // favour the pair `a` / `b` on consecutive lines
+        let piece = if i % 2 == 0 && rng.chance(1, 2) { a.to_string() } else if i % 2 == 1 && rng.chance(1, 2) { b.to_string() } else { rng.pick(&pieces).clone() };
+        input.extend_from_slice(piece.as_bytes());
+        if i + 1 < nl || rng.chance(3, 4) {
+            input.extend_from_slice(lt.bytes());
+        }
+    }
+    C1 { cfg, ci: false, fixed: false, word: false, smart: false, pats: vec![pat], input }
+}
 
 /// The `m …` entries of an event stream (offset and bytes are what identifies a reported line).
 fn reported(run: &str) -> Vec<String> {
@@ -457,12 +655,29 @@ fn run_case(line: &str, drv: &mut Driver, rep: &mut Report) {
     let cr_in_content = lines.iter().any(|l| content(l, cfg.lt).contains(&b'\r'));
     // is the matcher's verdict on some line different in buffer context and on the line alone?
     // (that — and only that — is what findings F1 / F2 / F24 are about)
+    // does a match found in buffer context CONTAIN a terminator byte (the `\n` / NUL, or the `\r` of `\r\n`)? The
+    // matcher must never do that (strip.rs removes the terminator from everything that could match it); no known
+    // finding is about such a match.
+    let mut crosses_terminator = false;
     let ctx_dependent = {
         let mut off = 0usize;
         let mut dep = false;
         for l in &lines {
             let cont = content(l, cfg.lt);
             let line_last = off + l.len() - if l.last() == Some(&cfg.lt.byte()) { 1 } else { 0 };
+            if let Ok(Some(mm)) = m.find_at(&c.input, off) {
+                let bytes = &c.input[mm.start()..mm.end()];
+                if bytes.contains(&cfg.lt.byte()) {
+                    crosses_terminator = true;
+                }
+                if cfg.lt == Lt::Crlf {
+                    for k in mm.start()..mm.end() {
+                        if c.input[k] == b'\r' && c.input.get(k + 1) == Some(&b'\n') {
+                            crosses_terminator = true;
+                        }
+                    }
+                }
+            }
             let in_ctx = m.find_at(&c.input, off).ok().flatten().map_or(false, |mm| mm.start() <= line_last);
             let alone = m.is_match(cont).unwrap_or(false);
             if in_ctx != alone {
@@ -475,7 +690,12 @@ fn run_case(line: &str, drv: &mut Driver, rep: &mut Report) {
     if ctx_dependent {
         rep.branch("matcher-verdict-depends-on-buffer-context");
     }
-    let class = if cfg.lt == Lt::Crlf && cr_in_content && bits_m != bits_r {
+    if crosses_terminator {
+        rep.branch("matcher-match-contains-terminator");
+    }
+    let class = if crosses_terminator {
+        ""
+    } else if cfg.lt == Lt::Crlf && cr_in_content && bits_m != bits_r {
         // matcher level: under --crlf the pattern is rewritten so that it can match neither \r nor \n
         "crlf-cr-unmatchable"
     } else if path == "fast" && safe == "0" && ctx_dependent {
@@ -528,7 +748,12 @@ fn main() {
          Haystack anchors \\A \\z are not generated (excluded by the property). Two further streams: -w (word(true)) over patterns LIT (gap LIT) LIT \
          with matching lines, so that ripgrep's own inner-literal extraction is exercised, and -S (case_smart(true)) over patterns whose \
          uppercase letters sit only under repetitions / groups / classes / escapes, with case variants as input; the reference decides \
-         smart case from the documented rule on the pattern text and wraps -w in the Unicode half-word assertions.",
+         smart case from the documented rule on the pattern text and wraps -w in the Unicode half-word assertions. Three more streams: \
+         counted repetitions / classes / long literals / alternations around and above every limit of ripgrep's inner-literal extractor \
+         (limit_repeat 10, limit_class 10, limit_literal_len 100, limit_total 64) under -w, a leading \\b or a class-prefixed alternative, \
+         with matching and near-miss lines; -S with literal-free patterns (Unicode / POSIX case classes); terminator-capable classes and \
+         literal terminators inside capturing groups with the two halves of a would-be match on consecutive lines. A match that contains \
+         a terminator byte is never attributed to a known finding.",
     );
     for c in corpus_cases(&args) {
         run_case(&c, &mut drv, &mut rep);
@@ -537,13 +762,16 @@ fn main() {
         let mut rng = Rng::new(args.seed);
         let n = args.cases.unwrap_or(if args.thorough { 100000 } else { 6000 });
         for i in 0..n {
-            let c = match i % 8 {
+            let c = match i % 12 {
                 3 => gen_word_case(&mut rng),
                 6 => gen_smart_case(&mut rng),
+                1 | 9 => gen_limit_case(&mut rng),
+                4 => gen_smart_nolit_case(&mut rng),
+                7 | 10 => gen_capture_case(&mut rng),
                 _ => gen_case(&mut rng),
             }
             .line();
-            if i < 8 {
+            if i < 12 {
                 rep.sample(c.clone());
             }
             run_case(&c, &mut drv, &mut rep);
